@@ -39,14 +39,15 @@ def statusTable : Nat → List Nat
   | 7 => [200, 2]
   | _ => []
 
-def mkParams (p d m r q st x : Nat) : Params :=
+def mkParams (p d m r q st x : Nat) (dyn : Bool := false) : Params :=
   { passive := p == 1,
     failDur := if p == 1 then d else 0,
     maxFails := if m == 0 then 1 else m,     -- reverseproxy.go:359-361
     retries := r,
     maxReq := if p == 1 then q else 0,       -- reverseproxy.go:1218-1223
     firstMax := x,                           -- an upstream's own max_requests wins (reverseproxy.go:1218-1223)
-    badStatus := if p == 1 then statusTable st else [] }
+    badStatus := if p == 1 then statusTable st else [],
+    dynamic := dyn }
 
 def outcomeNames : List String := ["ok", "e5", "c404", "c429", "c502", "c503", "rst", "hup", "pan", "her"]
 
@@ -63,6 +64,12 @@ def parseStep (s : String) (K : Nat) : Option SStep :=
       if p ≤ 1 && r ≤ 8 && st ≤ 7 && m ≤ 100 && q ≤ 100 && 1 ≤ x && x ≤ 100 then
         some (.load ks (mkParams p d m r q st x)) else none
     | _, _, _, _, _, _, _, _ => none
+  | ["Y", ks, p, d, m, r, q, st] =>
+    -- a configuration whose upstreams come from a dynamic source returning `ks`
+    match parseKeys ks K, num p, num d, num m, num r, num q, num st with
+    | some ks, some p, some d, some m, some r, some q, some st =>
+      if p ≤ 1 && r ≤ 8 && st ≤ 7 && m ≤ 100 && q ≤ 100 then some (.load ks (mkParams p d m r q st 0 true)) else none
+    | _, _, _, _, _, _, _ => none
   | ["B", ks] => (parseKeys ks K).map .badLoad
   | ["C"] => some .unloadCur
   | ["N", "G"] => some (.newReq true)
@@ -147,7 +154,7 @@ def stressOutcome (seed i : Nat) : String :=
   | _ => "abort"
 
 def stressParams : Params :=
-  { passive := true, failDur := 100, maxFails := 100, retries := 0, maxReq := 0, firstMax := 0, badStatus := [500] }
+  { passive := true, failDur := 100, maxFails := 100, retries := 0, maxReq := 0, firstMax := 0, badStatus := [500], dynamic := false }
 
 /-- one request from entry to return, on Host object `i % 2`; returns the new state and how the
     handler returned -/
